@@ -5,9 +5,9 @@ CONSTANTS
   KeyOf <- ToyKeyOf
   CtrOf <- ToyCtr
   Ids = {1}
-  PayloadIx = {1, 2, 3}
+  PayloadIx = {1, 3}
   KeyVals = {0, 1}
-  NonceVals = {0, 2}
+  NonceVals = {0}
   Thresholds = {1, 2}
   Kinds = {"none", "flipfirst", "flipmid", "fliplast", "trunc", "extend", "swapnonce", "althash", "shardfirst", "shardlast", "foreignmanifest", "foreignct"}
   MKinds = {"none", "swapnonce", "althash", "shardfirst", "shardlast"}
